@@ -712,8 +712,11 @@ MANIFEST = {
              "by each of the four paths, the generated program is run on a box of exact "
              "environments and compared with the reference value of the source expression; "
              "compile()'s argument order (listed first, rest name-sorted) is checked by "
-             "value and by its code object, and again after a pickle round trip. Each "
-             "instance is validated; nothing is proved about the translators in general."),
+             "value and by its code object, and again after a pickle round trip; Polynomial "
+             "nodes are compiled inside small contexts and compared with the value computed "
+             "from their parts; a retyped twin (4 -> 4.0) is translated first in the same "
+             "process. Each instance is validated; nothing is proved about the translators "
+             "in general."),
     "note": ("Trusted: CPython (eval/exec/ast.unparse), pbt/refsem.py. Exact integer/"
              "Fraction environments; float parts compared to 1e-9."),
     "technique": "per-program translation validation on generated inputs (differential execution vs reference interpreter)",
